@@ -304,30 +304,75 @@ def sum_succ_instances(terms):
 
 
 def _ground_sums(terms):
-    out, seen, stack = [], set(), list(terms)
-    while stack:
-        t = stack.pop()
-        if t.get_id() in seen or z3.is_quantifier(t) or not z3.is_app(t):
-            continue
-        seen.add(t.get_id())
-        if t.decl().name() == "u_sum" and t.num_args() == 3 and z3.is_quantifier(t.arg(0)):
-            out.append(t)
-        stack.extend(t.children())
+    """sums occurring outside binders, in the order of `terms` (the goal's sums first: the callers limit the number of
+    pairs they look at, and the pairs with a sum of the goal are the ones that matter)"""
+    out, seen = [], set()
+    for t0 in terms:
+        stack = [t0]
+        while stack:
+            t = stack.pop()
+            if t.get_id() in seen or z3.is_quantifier(t) or not z3.is_app(t):
+                continue
+            seen.add(t.get_id())
+            if t.decl().name() == "u_sum" and t.num_args() == 3 and z3.is_quantifier(t.arg(0)):
+                out.append(t)
+            stack.extend(t.children())
     return out
 
 
-def sum_ext_instances(terms, depth=2, limit=60):
+def _ite_conditions(t):
+    """conditions of if-then-else terms occurring in `t` outside binders"""
+    out, seen, stack = [], set(), [t]
+    while stack:
+        x = stack.pop()
+        if x.get_id() in seen or z3.is_quantifier(x) or not z3.is_app(x):
+            continue
+        seen.add(x.get_id())
+        if x.decl().kind() == z3.Z3_OP_ITE and not _has_quantifier(x.arg(0)) and not any(x.arg(0).eq(c) for c in out):
+            out.append(x.arg(0))
+        stack.extend(x.children())
+    return out
+
+
+def _symbols(t):
+    out, seen, stack = set(), set(), [t]
+    while stack:
+        x = stack.pop()
+        if x.get_id() in seen:
+            continue
+        seen.add(x.get_id())
+        if z3.is_quantifier(x):
+            stack.append(x.body())
+        elif z3.is_app(x):
+            if x.decl().kind() == z3.Z3_OP_UNINTERPRETED:
+                out.add(x.decl().name())
+            stack.extend(x.children())
+    return out
+
+
+def sum_ext_instances(terms, depth=2, limit=60, n_goal=0):
     """ground instances of the (Lean-proved) lemma sum_ext for pairs of sums with the same bounds, with the summands
     beta-reduced at a fresh index; repeated for the inner sums that become visible (nested sums).  The solver's
-    E-matching does not see sums that only appear after a beta reduction, hence this helper."""
+    E-matching does not see sums that only appear after a beta reduction, hence this helper.  The first `n_goal`
+    terms are the goal: each of its sums gets its own share of the limit (pairs of two hypothesis sums come last)."""
     from .values import select
     out, keep = [], []
     level = _ground_sums(terms)
+    n_first = len(_ground_sums(terms[:n_goal])) if n_goal else 0
     done = set()
-    for _ in range(depth):
+    for d_ in range(depth):
         nxt = []
-        for i in range(len(level)):
-            for j in range(i + 1, len(level)):
+        pairs = []
+        if d_ == 0 and n_first:
+            share = max(limit // n_first, 20)
+            sym = [_symbols(t.arg(0)) for t in level]
+            for i in range(n_first):
+                # partners most alike the goal's sum first (same functions and constants in the summand)
+                js = sorted((j for j in range(len(level)) if j != i),
+                            key=lambda j: -len(sym[i] & sym[j]) / float(len(sym[i] | sym[j]) or 1))
+                pairs += [(i, j) for j in js][:share]
+        pairs += [(i, j) for i in range(len(level)) for j in range(i + 1, len(level))]
+        for (i, j) in pairs:
                 a, b = level[i], level[j]
                 if a.get_id() == b.get_id() or not (a.arg(1).eq(b.arg(1)) and a.arg(2).eq(b.arg(2))):
                     continue
@@ -498,7 +543,7 @@ def _solve_inner(idx):
     insts = manual_instances(ob.hyps, goal, sks)
     more_insts = []
     if sum_axioms and _mentions_decl([goal], "u_sum"):
-        ext = sum_ext_instances([goal] + list(insts))
+        ext = sum_ext_instances([goal] + list(insts), n_goal=1)
         for a in ext:
             s.add(a)
         # cell-wise hypotheses are also needed at the fresh indices introduced by the extensionality instances
@@ -535,6 +580,27 @@ def _solve_inner(idx):
     # a hypothesis, so `unsat` of any attempt is a proof and `sat` of any attempt is a counter-model of the obligation.
     base = list(s.assertions())
     budget = Z3_TIMEOUT_MS
+    if sum_axioms and _mentions_decl([goal], "u_sum"):
+        # first without the quantified sum axioms: their ground instances above (extensionality at fresh indices,
+        # unfolding at the upper end) are usually all that is needed, and with many sums around the quantified
+        # extensionality axiom makes the search diverge.  Fewer hypotheses: unsat here is a proof.
+        ids = set(a_.get_id() for a_ in sum_axioms)
+        lean_ = [a_ for a_ in base if a_.get_id() not in ids]
+        if _hard_check(lean_ + list(more_insts), 3000 if _short_mode() else 12000, 3)[0] == "unsat":
+            return idx, "proved", None, time.time() - t0, "z3", None
+        # the same, split on the condition of a conditional in the goal (a store into one slab of an array read back
+        # at an arbitrary index: `k == i` / `k != i`): both cases unsat is a proof, and each case is far easier
+        conds = _ite_conditions(goal)[:2]
+        if conds and not _short_mode():
+            import itertools as _it
+            ok = True
+            for signs in _it.product((True, False), repeat=len(conds)):
+                case = [c if sg else z3.Not(c) for c, sg in zip(conds, signs)]
+                if _hard_check(lean_ + list(more_insts) + case, 8000, 5)[0] != "unsat":
+                    ok = False
+                    break
+            if ok:
+                return idx, "proved", None, time.time() - t0, "z3", None
     attempts = [(True, budget // 6, 0), (False, budget // 6, 0), (True, budget // 3, 7), (False, budget // 3, 7),
                 (True, budget, 13), (False, budget, 13)]
     if not more_insts:
